@@ -128,10 +128,10 @@ Proof.
   match goal with |- context [if ?b then _ else _] => destruct b end; reflexivity.
 Qed.
 
-Lemma use_ctx_from_st g : forall ty id first s, st_of (use_ctx_from g ty id first s) = s.
+Lemma use_ctx_from_st fx g : forall ty id first s, st_of (use_ctx_from fx g ty id first s) = s.
 Proof.
   induction g as [|g IH]; intros ty id first s; cbn [use_ctx_from]; [reflexivity|].
-  destruct (nodes s !! id) as [nd|]; [|reflexivity].
+  destruct (nodes s !! id) as [nd|]; [|destruct (fx && negb first); reflexivity].
   destruct (ctx_find ty (n_context nd)); [reflexivity|]. destruct (n_parent nd); [apply IH|reflexivity].
 Qed.
 
@@ -331,7 +331,8 @@ Proof.
     cbn. rewrite !log_foldr_upd. reflexivity.
   - intros id s. rewrite dispose_children_S. destruct (nodes s !! id) as [nd|]; [|lrefl].
     cbv zeta. lb; [lvia Hrc|]. lb; [lvia Hdl|].
-    match goal with |- context [if ?b then _ else _] => destruct b end; lok.
+    match goal with |- context [nodes ?s4 !! id] => destruct (nodes s4 !! id) as [nd'|] end; [|lok].
+    match goal with |- context [if ?b then _ else _] => destruct b end; [apply Hdc|lok].
   - intros cs s. rewrite run_cleanups_S. destruct cs as [|c r]; [lrefl|].
     lb; [lvia_emit Hexec|]. apply Hrc.
   - intros ids s. rewrite dispose_list_S. destruct ids as [|i r]; [lrefl|]. lb; [apply Hdisp|]. apply Hdl.
